@@ -30,7 +30,7 @@ class C11(Check):
                    'compress_copies_bit_for_bit', 'index_base', 'index_step_in_row', 'index_step_next_row',
                    'index_in_range', 'index_error_iff_below_diagonal', 'index_matches_triu_position',
                    'class_positions_valid', 'class_covers_position', 'compressed_form_names_same_positions',
-                   'slices_form_names_same_positions', 'cached_equals_uncached']
+                   'slices_form_names_same_positions', 'cached_equals_uncached', 'index_independent_of_earlier_sizes']
     obligation_text = {
         'reinflate_of_compress_is_identity': 'for symbolic symmetric M (n x n): reinflate(compress(M)) == M entrywise, result symmetric',
         'compress_of_reinflate_is_identity': 'for symbolic v of length n(n+1)/2: compress(reinflate(v)) == v, reinflate(v) symmetric with (i,j) = v[rank(min,max)]',
@@ -45,6 +45,7 @@ class C11(Check):
         'class_covers_position': 'every (R,C) with R<=C<NW lies in the class with its canonical id, which is a valid class',
         'compressed_form_names_same_positions': 'locations_compressed == closed-form rank of each position, in order',
         'slices_form_names_same_positions': 'locations_index_slices == unzip of the position list',
+        'index_independent_of_earlier_sizes': 'the index of (r,c) in an n x n matrix equals its rank whatever sizes were asked about earlier in the same process (larger first, smaller first)',
         'cached_equals_uncached': 'functools.cache wrappers return values equal to their __wrapped__ bodies',
     }
     stubs = ['numba absent']
@@ -77,6 +78,8 @@ class C11(Check):
         cfgs.append(Config('index_lemma', self.index_lemma, {}))
         for n in ([1, 2, 3, 5, 8] if tier == 'quick' else range(1, 25)):
             cfgs.append(Config('index_triu_n%d' % n, self.index_triu, {'n': n}, witness_every=3))
+        for (n1, n2) in ([(6, 3), (3, 6), (8, 2)] if tier == 'quick' else [(6, 3), (3, 6), (8, 2), (40, 12), (12, 40), (14, 2)]):
+            cfgs.append(Config('index_history_%d_then_%d' % (n1, n2), self.index_history, {'n1': n1, 'n2': n2}))
         for (N, W) in self._nw(tier):
             cfgs.append(Config('classes_N%d_W%d' % (N, W), self.classes, {'N': N, 'W': W}, max_fanout=256,
                                witness_every=5))
@@ -170,6 +173,24 @@ class C11(Check):
             f.append(I(select(rows, idx)) == I(r))
             f.append(I(select(cols, idx)) == I(col))
         c.prove('index_matches_triu_position', conj(f))
+
+    def index_history(self, c, n1, n2):
+        uv = self.R.uv
+        # earlier traffic: the whole upper triangle of an n1 x n1 matrix through the cached entry point
+        for r0 in range(n1):
+            for c0 in range(r0, n1):
+                uv._compressed_index(r0, c0, n1)
+        r = c.int('r', 0, n2 - 1)
+        col = c.int('c', 0, n2 - 1)
+        c.assume(I(r) <= I(col))
+        c.notes.update({'kind': 'history', 'n1': n1, 'n2': n2})
+        ok, idx = guarded(c, 'index_independent_of_earlier_sizes', uv._compressed_index.__wrapped__, r, col, n2)
+        if not ok:
+            return
+        ok, idx2 = guarded(c, 'index_independent_of_earlier_sizes', uv._compressed_index, int(r), int(col), n2)
+        if not ok:
+            return
+        c.prove('index_independent_of_earlier_sizes', z3.And(I(idx) == rank_spec(r, col, n2), I(idx2) == rank_spec(r, col, n2)))
 
     # ---- 3. Toeplitz classes
     def classes(self, c, N, W):
